@@ -685,6 +685,7 @@ func (n *NSQD) queueScanWorker(workCh chan *Channel, responseCh chan bool, close
 	for {
 		select {
 		case c := <-workCh:
+			verif.Ev("QSWork", "c", vc(c))
 			now := time.Now().UnixNano()
 			dirty := false
 			if c.processInFlightQueue(now) {
@@ -693,6 +694,7 @@ func (n *NSQD) queueScanWorker(workCh chan *Channel, responseCh chan bool, close
 			if c.processDeferredQueue(now) {
 				dirty = true
 			}
+			verif.Ev("QSDone", "c", vc(c), "dirty", dirty)
 			responseCh <- dirty
 		case <-closeCh:
 			return
@@ -723,16 +725,19 @@ func (n *NSQD) queueScanLoop() {
 
 	channels := n.channels()
 	n.resizePool(len(channels), workCh, responseCh, closeCh)
+	verif.Ev("QSRefresh", "chans", vcs(channels), "pool", n.poolSize, "max", n.getOpts().QueueScanWorkerPoolMax)
 
 	for {
 		select {
 		case <-workTicker.C:
+			verif.Ev("QSTick", "n", len(channels))
 			if len(channels) == 0 {
 				continue
 			}
 		case <-refreshTicker.C:
 			channels = n.channels()
 			n.resizePool(len(channels), workCh, responseCh, closeCh)
+			verif.Ev("QSRefresh", "chans", vcs(channels), "pool", n.poolSize, "max", n.getOpts().QueueScanWorkerPoolMax)
 			continue
 		case <-n.exitChan:
 			goto exit
@@ -744,6 +749,7 @@ func (n *NSQD) queueScanLoop() {
 		}
 
 	loop:
+		verif.Ev("QSBegin", "num", num, "n", len(channels), "count", n.getOpts().QueueScanSelectionCount)
 		for _, i := range util.UniqRands(num, len(channels)) {
 			workCh <- channels[i]
 		}
@@ -755,6 +761,7 @@ func (n *NSQD) queueScanLoop() {
 			}
 		}
 
+		verif.Ev("QSRound", "num", num, "dirty", numDirty, "pct", n.getOpts().QueueScanDirtyPercent)
 		if float64(numDirty)/float64(num) > n.getOpts().QueueScanDirtyPercent {
 			goto loop
 		}
